@@ -22,6 +22,8 @@ func init() {
 			{"ORDER-DIRECTION-CARRIED", func(c *eng.Ctx) { ruleOrderDirectionCarried(c, "ORDER-DIRECTION-CARRIED") }},
 			{"MINMAX-TABLE", ruleMinMaxTable},
 			{"AGG-PIPELINE", ruleAggPipeline},
+			{"AVG-NOT-NIL", ruleAvgNotNil},
+			{"AGG-KIND-PER-SOURCE", ruleAggKindPerSource},
 			{"AGG-FILTER-GATE", ruleAggFilterGate},
 			{"FILTER-KEY-NOT-A-FIELD", ruleFilterKeyNotAField},
 			{"AGG-SIBLING-CASES", ruleAggSiblingCases},
